@@ -270,6 +270,7 @@ fn run(ctx: &Ctx) {
     );
     ctx.assume("OS-thread interleavings are sampled (with perturbation), not enumerated; data races on the relaxed atomics cannot be excluded by sampling");
     ctx.assume("every mutation of the relation store happens under its write lock, so any interleaving is equivalent to some order of add calls (explored in part 3)");
+    ctx.assume("a threaded failure on an input whose recorded relation sets are valid yet arithmetically degenerate (independent final step: >= 20 kernel vectors, at most 1 in 10 splits n, in four repetitions) is the listed known finding, not a schedule effect");
     let mut l = Local::new();
     run_threads(ctx, &mut l);
     super::c04_sched::run(ctx, &mut l);
